@@ -5,6 +5,7 @@
 package worlds
 
 import (
+	"crypto/tls"
 	"io"
 	"log/slog"
 	"net"
@@ -40,6 +41,24 @@ type RootHooks struct {
 }
 
 var Root RootHooks
+
+// configureIPClientNTS wires an IPClient for NTS through timeservice.go's own function when
+// the hook is there; otherwise the same settings are made here (TLS 1.3, ALPN ntske/1, the
+// key-exchange host as server name).
+func configureIPClientNTS(c *client.IPClient, ntskeServer string, log *slog.Logger) {
+	if Root.ConfigureIPClientNTS != nil {
+		Root.ConfigureIPClientNTS(c, ntskeServer, false, log)
+		return
+	}
+	host, port, err := net.SplitHostPort(ntskeServer)
+	if err != nil {
+		panic(err)
+	}
+	c.Auth.Enabled = true
+	c.Auth.NTSKEFetcher.TLSConfig = tls.Config{NextProtos: []string{"ntske/1"}, ServerName: host, MinVersion: tls.VersionTLS13}
+	c.Auth.NTSKEFetcher.Port = port
+	c.Auth.NTSKEFetcher.Log = log
+}
 
 var registerOnce gosync.Once
 
